@@ -205,7 +205,22 @@ func init() {
 				e.stat("print-wellformed")
 			}
 			precShapeStats(x, e)
-			e.emit("prec\tprint\t"+mn+"\t0\t"+fi+"\t"+strings.TrimSpace(sb.String()), printed)
+			if wf {
+				// end-to-end witness: the fully parenthesised program, in expression-statement or for-init position,
+				// must come out valid (V8) and as a fixed point of a second compile (c13-syntax replay)
+				src := "(" + x.fullParen() + ");\n"
+				if forbidIn {
+					src = "for ((" + x.fullParen() + "); x0 < 0; ) break;\n"
+				}
+				opt := "utf8"
+				if minify {
+					opt = "utf8,mw"
+				}
+				e.emitW("prec\tprint\t"+mn+"\t0\t"+fi+"\t"+strings.TrimSpace(sb.String()), printed, "c13-syntax",
+					map[string]string{"source": src, "goal": "script", "opt_name": opt})
+			} else {
+				e.emit("prec\tprint\t"+mn+"\t0\t"+fi+"\t"+strings.TrimSpace(sb.String()), printed)
+			}
 			if !ok {
 				continue
 			}
